@@ -61,13 +61,19 @@ def _worker(indices):
 def _minimise_and_write(prop, r, tier):
     os.makedirs(REPLAYS, exist_ok=True)
     t0 = time.time()
-    tape, last, n = minimise(prop, r.tape, r.vclass, tier)
+    if r.vclass == 'no_progress':       # every re-execution costs the full CPU budget: do not minimise
+        tape, last, n = None, None, 0
+    else:
+        tape, last, n = minimise(prop, r.tape, r.vclass, tier)
     reproduced = last is not None
     if not reproduced:
         tape, last = r.tape, r
     # verify the minimised tape twice (determinism of the failing run)
-    chk = runmod.execute(prop, 0, tier, replay=tape, wall_limit=60)
-    stable = chk.status == 'violation' and chk.vclass == r.vclass and chk.digest == last.digest
+    if r.vclass == 'no_progress':
+        stable = None
+    else:
+        chk = runmod.execute(prop, 0, tier, replay=tape, wall_limit=60)
+        stable = chk.status == 'violation' and chk.vclass == r.vclass and chk.digest == last.digest
     path = os.path.join(REPLAYS, '%s-%d.json' % (prop.ID, r.seed))
     with open(path, 'w') as f:
         json.dump({
@@ -149,7 +155,7 @@ def run_check(pid, tier, batch_seed=None, nproc=None, runs=None, time_budget=Non
                         violations.append(r)
                     elif r.status == 'harness_error':
                         harness_errors.append((r.index, r.vclass, r.detail))
-            if len(violations) >= 40 or len(harness_errors) >= 5:
+            if len(violations) >= 40 or len(harness_errors) >= 5 or any(v.vclass == 'no_progress' for v in violations):
                 for p in pending:
                     p.cancel()
                 stopped_early = True
